@@ -80,6 +80,9 @@ type vxC13Case struct {
 	First     vxC13Data `json:"first"`
 	HasSecond bool      `json:"hasSecond"`
 	Second    vxC13Data `json:"second"`
+	// Reuse: how the second data set reaches the fan: 0 = a new map object, 1 = the SAME map object refilled in place
+	// (what UpdateFanRpmCurveValue does to attached data), 2 = the same variable now holding a new map
+	Reuse int `json:"reuse,omitempty"`
 }
 
 func (c vxC13Case) String() string {
@@ -185,9 +188,29 @@ func vxC13Check(c vxC13Case, st *vxC13Stats) (fails []vxC13Fail) {
 	if err != nil || fan == nil {
 		return []vxC13Fail{{"C13 NewFan failed", fmt.Sprintf("%v: %v", c, err)}}
 	}
+	var held *map[int]float64 // what the first attachment passed
 	attach := func(which string, d vxC13Data, prevMeasured *vxC13Ref) {
 		before := vxC13Read(fan)
-		err := fan.AttachFanRpmCurveData(d.Map())
+		arg := d.Map()
+		if which == "second" && held != nil && arg != nil {
+			switch c.Reuse {
+			case 1:
+				for k := range *held {
+					delete(*held, k)
+				}
+				for k, v := range *arg {
+					(*held)[k] = v
+				}
+				arg = held
+			case 2:
+				*held = *arg
+				arg = held
+			}
+		}
+		if which == "first" {
+			held = arg
+		}
+		err := fan.AttachFanRpmCurveData(arg)
 		after := vxC13Read(fan)
 		ref := vxC13Reference(d)
 		pre := "C13 " + which + " attachment: "
@@ -522,11 +545,14 @@ func TestVX_C13(t *testing.T) {
 			}
 			r2 := vxC13Reference(core[j])
 			for _, cfg := range cfgs {
-				c := vxC13CaseOf(cfg, core[i], &core[j])
-				pairs++
-				fails := vxC13Check(c, st)
-				if len(fails) > 0 {
-					report(c, fails)
+				for reuse := 0; reuse < 3; reuse++ {
+					c := vxC13CaseOf(cfg, core[i], &core[j])
+					c.Reuse = reuse
+					pairs++
+					fails := vxC13Check(c, st)
+					if len(fails) > 0 {
+						report(c, fails)
+					}
 				}
 				if cfg.kind == "hwmon" && !r2.Empty && !r2.AllZero && i != j {
 					nontrivial++
